@@ -136,6 +136,9 @@ func c04serve(o *c04obs, cfg *c04cfg, k int, conn net.Conn) {
 		}
 		id := string(req.Header.Peek("X-Id"))
 		o.srvSeen[k] = append(o.srvSeen[k], id)
+		if len(o.srvSeen[k]) > 1 {
+			mcrt.Covered("conn-reused")
+		}
 		b := cfg.beh[id]
 		if b.never {
 			mcrt.WaitUntil("server-stalls-for-good", func() bool { return false })
@@ -401,13 +404,13 @@ func c04scenarios(add func(name string, qb, tb int, tf bool, cfg c04cfg)) {
 			mb = 4
 		}
 		for mode, mn := range []string{"readall", "readpart", "unread"} {
-			add(fmt.Sprintf("host/stream/%s/1caller-2calls/%s", fr, mn), 2, 3, false, c04cfg{maxConns: 1, stream: true, maxBody: mb,
+			add(fmt.Sprintf("host/stream/%s/1caller-2calls/%s", fr, mn), 2, 4, false, c04cfg{maxConns: 1, stream: true, maxBody: mb,
 				callers: one(c04call{id: "A", mode: mode}, c04call{id: "B"}),
 				beh:     map[string]c04beh{"A": beh, "B": {chunked: ch}}})
 		}
 	}
 	// the tail is written without a delay: only some interleavings leave it unread on the connection
-	add("host/stream/chunked/1caller-2calls/readpart-nodelay", 2, 3, false, c04cfg{maxConns: 1, stream: true,
+	add("host/stream/chunked/1caller-2calls/readpart-nodelay", 2, 4, false, c04cfg{maxConns: 1, stream: true,
 		callers: one(c04call{id: "A", mode: c04ReadPart}, c04call{id: "B"}),
 		beh:     map[string]c04beh{"A": {chunked: true, split: true, nested: true}, "B": {chunked: true}}})
 	// plain (not HTTP-shaped) tail, one retry allowed: the next call may fail or be retried, it must never succeed with foreign bytes
@@ -462,13 +465,13 @@ func c04scenarios(add func(name string, qb, tb int, tf bool, cfg c04cfg)) {
 		beh:     map[string]c04beh{"A": {stall: sec}, "B": {}}})
 	// --- PipelineClient (second and third caller start 1 ms apart: see the C38 harness for the rationale)
 	ms := time.Millisecond
-	add("pipeline/2callers/do", 1, 1, false, c04cfg{pipeline: true, maxConns: 1, maxPending: 2,
+	add("pipeline/2callers/do", 1, 2, false, c04cfg{pipeline: true, maxConns: 1, maxPending: 2,
 		callers: [][]c04call{{{id: "A"}}, {{id: "B", after: ms}}},
 		beh:     map[string]c04beh{"A": {split: true, delay: sec, nested: true}, "B": {chunked: true}}})
 	add("pipeline/2callers/do/sim/v", 1, 2, false, c04cfg{vconn: true, pipeline: true, maxConns: 1, maxPending: 2,
 		callers: [][]c04call{{{id: "A"}}, {{id: "B"}}},
 		beh:     map[string]c04beh{"A": {split: true, delay: sec, nested: true}, "B": {chunked: true}}})
-	add("pipeline/1caller-2calls/do", 2, 2, false, c04cfg{pipeline: true, maxConns: 1, maxPending: 2,
+	add("pipeline/1caller-2calls/do", 2, 3, false, c04cfg{pipeline: true, maxConns: 1, maxPending: 2,
 		callers: one(c04call{id: "A"}, c04call{id: "B"}),
 		beh:     map[string]c04beh{"A": {split: true, delay: sec, nested: true}, "B": {chunked: true}}})
 	add("pipeline/2callers/first-times-out/v", 1, 2, true, c04cfg{vconn: true, pipeline: true, maxConns: 1, maxPending: 2,
@@ -484,7 +487,7 @@ func c04scenarios(add func(name string, qb, tb int, tf bool, cfg c04cfg)) {
 	add("pipeline/2callers/cut-mid-body/v", 1, 1, false, c04cfg{vconn: true, pipeline: true, maxConns: 1, maxPending: 2,
 		callers: [][]c04call{{{id: "A", timeout: 5 * sec}}, {{id: "B", timeout: 5 * sec, after: ms}}},
 		beh:     map[string]c04beh{"A": {cut: true, nested: true, stall: 2 * ms}, "B": {}}})
-	add("pipeline/3callers/do/v", 1, 1, false, c04cfg{vconn: true, pipeline: true, maxConns: 1, maxPending: 2,
+	add("pipeline/3callers/do/v", 1, 2, false, c04cfg{vconn: true, pipeline: true, maxConns: 1, maxPending: 2,
 		callers: [][]c04call{{{id: "A"}}, {{id: "B", after: ms}}, {{id: "C", after: 2 * ms}}},
 		beh:     map[string]c04beh{"A": {split: true, delay: sec, nested: true}, "B": {chunked: true}, "C": {}}})
 }
